@@ -23,6 +23,7 @@ from .prometheus import (
     CONNECTION_LOST,
     CONNECTION_MADE,
     CONNECTION_READY,
+    SUBSCRIPTIONS,
 )
 
 log = logging.getLogger(__name__)
@@ -186,6 +187,10 @@ class Connection(BaseProtocol):
             self.error(f"Authentication failed for {ident}")
             self.transport.close()
             return
+
+        for chan in self.active_subscriptions:
+            SUBSCRIPTIONS.labels(self.ak, chan).dec()
+            SUBSCRIPTIONS.labels(ident, chan).inc()
 
         self.ak = ident
         self.uid = akrow["owner"]
